@@ -632,6 +632,7 @@ func checkKeymasterSigned(c *km.Ctx, s *km.Sem, rule string) {
 		c.R.AnchorLost(rule, "success return of getUsernameIfKeymasterSigned")
 		return
 	}
+	checkFingerprintFormat(c, rule)
 	// (a) deny list: a comparison between the leaf key fingerprint and an element of KeyDenyFPsshSha256 whose
 	// true edge cannot reach a success return, and the load of the deny list dominates every success return.
 	var denyLoadBlock *ssa.BasicBlock
@@ -718,6 +719,116 @@ func mentionsField(v ssa.Value, field string) bool {
 }
 
 // isLeafFingerprint: getKeyFingerprint(chain[0].PublicKey) result
+// checkFingerprintFormat: the deny list is written by operators as lower-case hexadecimal SHA-256 digests of the
+// SSH wire form of a key; the fingerprint function the comparison uses has to produce that form, or no entry of an
+// existing configuration ever matches again.
+func checkFingerprintFormat(c *km.Ctx, rule string) {
+	fn := c.MustFunc(rule, "cmd/keymasterd", "getKeyFingerprint")
+	if fn == nil {
+		return
+	}
+	isWire := func(v ssa.Value) bool {
+		cl, ok := km.Unwrap(v).(*ssa.Call)
+		if !ok || !cl.Common().IsInvoke() || cl.Common().Method.Name() != "Marshal" {
+			return false
+		}
+		src, idx := callRes(km.Unwrap(cl.Common().Value))
+		return src != nil && idx == 0 && km.CalleeFull(src.Common()) == "golang.org/x/crypto/ssh.NewPublicKey" && km.Unwrap(src.Common().Args[0]) == ssa.Value(fn.Params[0])
+	}
+	isDigest := func(v ssa.Value) bool {
+		v = km.Unwrap(v)
+		// sum := sha256.Sum256(wire); sum[:]
+		if sl, ok := v.(*ssa.Slice); ok && sl.Low == nil && sl.High == nil {
+			if al, ok := sl.X.(*ssa.Alloc); ok {
+				n, good := 0, true
+				for _, ref := range *al.Referrers() {
+					if st, isSt := ref.(*ssa.Store); isSt && st.Addr == ssa.Value(al) {
+						n++
+						cl, isC := km.Unwrap(st.Val).(*ssa.Call)
+						if !isC || km.CalleeFull(cl.Common()) != "crypto/sha256.Sum256" || !isWire(cl.Common().Args[0]) {
+							good = false
+						}
+					}
+				}
+				return n == 1 && good
+			}
+			return false
+		}
+		// h := sha256.New(); h.Write(wire); h.Sum(nil)
+		cl, ok := v.(*ssa.Call)
+		if !ok || !cl.Common().IsInvoke() || cl.Common().Method.Name() != "Sum" || !km.IsNilConst(cl.Common().Args[0]) {
+			return false
+		}
+		h, ok := km.Unwrap(cl.Common().Value).(*ssa.Call)
+		if !ok || km.CalleeFull(h.Common()) != "crypto/sha256.New" {
+			return false
+		}
+		nW, good := 0, true
+		for _, ref := range *h.Referrers() {
+			w, isC := ref.(*ssa.Call)
+			if !isC || !w.Common().IsInvoke() || w.Common().Value != ssa.Value(h) {
+				continue
+			}
+			switch w.Common().Method.Name() {
+			case "Write":
+				nW++
+				if !isWire(w.Common().Args[0]) || !km.InstrDominates(w, cl) {
+					good = false
+				}
+			case "Sum":
+			default:
+				good = false
+			}
+		}
+		return nW == 1 && good
+	}
+	n, bad := 0, ""
+	km.Instrs(fn, func(in ssa.Instruction) {
+		ret, ok := in.(*ssa.Return)
+		if !ok || len(ret.Results) != 2 || !km.IsNilConst(ret.Results[1]) {
+			return
+		}
+		n++
+		v := km.Unwrap(ret.Results[0])
+		cl, isC := v.(*ssa.Call)
+		hexed := false
+		if isC {
+			switch km.CalleeFull(cl.Common()) {
+			case "encoding/hex.EncodeToString":
+				hexed = isDigest(cl.Common().Args[0])
+			case "fmt.Sprintf":
+				if f, isS := km.ConstString(cl.Common().Args[0]); isS && f == "%x" {
+					if sl, isSl := cl.Common().Args[1].(*ssa.Slice); isSl {
+						if al, isA := sl.X.(*ssa.Alloc); isA {
+							for _, ref := range *al.Referrers() {
+								if ia, isIA := ref.(*ssa.IndexAddr); isIA {
+									for _, r2 := range *ia.Referrers() {
+										if st, isSt := r2.(*ssa.Store); isSt && isDigest(st.Val) {
+											hexed = true
+										}
+									}
+								}
+							}
+						}
+					}
+				}
+			}
+		}
+		if !hexed {
+			bad = "returns " + clipS(km.ValStr(v), 100) + " at " + posOf(c, ret)
+		}
+	})
+	if n == 0 {
+		c.R.AnchorLost(rule, "success return of getKeyFingerprint")
+		return
+	}
+	found := sprintf("%d success return(s) in that form", n)
+	if bad != "" {
+		found = bad
+	}
+	c.R.Add(rule, km.FuncName(fn), "fingerprint form the deny list is written in", c.P.Pos(fn.Pos()), "lower-case hexadecimal of the SHA-256 digest of ssh.NewPublicKey(key).Marshal()", found, bad == "")
+}
+
 func isLeafFingerprint(v ssa.Value) bool {
 	cl, idx := callRes(km.Unwrap(v))
 	if cl == nil || idx != 0 || km.CalleeFull(cl.Common()) != KMD+".getKeyFingerprint" {
